@@ -888,7 +888,7 @@ fn after_fault(sh: &Arc<Shared>, unacked: &HashSet<RecId>, when: &str) {
     }
 }
 
-fn setup_tree(scn: &Scn, names: &Names) -> Model {
+pub fn setup_tree(scn: &Scn, names: &Names) -> Model {
     let mut model = Model { roller: scn.roller.clone(), active: vec![], pending: None, window: BTreeMap::new(), others: BTreeMap::new(), stream: vec![], rolls_ok: 0 };
     fs::create_dir_all(names.root.join("log")).unwrap();
     fs::create_dir_all(names.root.join("arch")).unwrap();
@@ -1363,7 +1363,9 @@ fn run_bodies(k: &Arc<kernel::Kernel>, bodies: Vec<Box<dyn FnOnce() + Send>>, si
             out.harness_error = Some("STALL: a simulated thread did not reach a decision point".into());
             return false;
         }
+        let faulty = k.any_fault_or_crash_fired();
         let (p, i) = match trigger {
+            _ if faulty => ("C08", "C08-I1"),
             TriggerSpec::Time { .. } => ("C16", "C16-I5"),
             _ => ("C05", "C05-E0"),
         };
